@@ -443,4 +443,4 @@ mod tests {
 
 #[cfg(kani)]
 #[path = "/verif/harness/teos/config.rs"]
-mod verif_harness;
+pub(crate) mod verif_harness;
